@@ -23,7 +23,7 @@ class Project(Base):
     __tablename__ = "vt2_project"
     id = sa.Column(sa.Integer, primary_key=True)
     name = sa.Column(sa.String(20))
-    owner_id = sa.Column(sa.ForeignKey("vt2_team.id"))
+    owner_id = sa.Column(sa.ForeignKey("vt2_team.id"), nullable=False)     # NOT NULL key after the nullable hop Ticket.project
     owner = relationship("Team")
 
 
